@@ -687,7 +687,8 @@ def cloneSubgraphs (rec : CSt → GId → Option (CSt × GId)) : CSt → List GI
 
 /-- `Cloner.clone_node` of the node `nd` of the source world: inputs through the value map, then
     the attributes (subgraphs, recursively), then the new node and its outputs, then the remap of the
-    annotations through the node-local `io_map` (fix D350: not through the global value map) -/
+    annotations through the node-local `io_map` (fix D350: not through the global value map, except for
+    specs that target a value outside the node, D340 / D341) -/
 def cloneNode (rec : CSt → GId → Option (CSt × GId)) (st : CSt) (nd : NodeS) : Option (CSt × NId) :=
   match cloneInputs st.allow st.pending st.vm nd.inputs with
   | none => none
@@ -698,10 +699,14 @@ def cloneNode (rec : CSt → GId → Option (CSt × GId)) (st : CSt) (nd : NodeS
       let w := st1.w
       let newOuts := List.range' w.values.length nd.outputs.length
       let vm := (nd.outputs.zip newOuts).reverse ++ st1.vm
+      -- D340: a spec whose value is not an input / output of the node follows the global value map;
+      -- D341: with allow_outer_scope_values=False such a spec without an entry there raises
+      let io := ioMap nd.inputs ins nd.outputs newOuts ++ vm
+      if st.allow = false ∧ ∃ nc ∈ nd.dev, ∃ s ∈ nc.specs, vlookup io s.value = none then none else
       let w1 : World := { w with
         values := w.values ++ nd.outputs.map w.value,
         nodes := w.nodes ++ [{ inputs := ins, outputs := newOuts,
-                               dev := remapDev (ioMap nd.inputs ins nd.outputs newOuts) nd.dev,
+                               dev := remapDev io nd.dev,
                                subgraphs := subs }] }
       some ({ st1 with
               w := w1, vm := vm,
@@ -837,8 +842,11 @@ def instNode (vm : OMap) (nd : NodeS) (base : Nat) : Option NodeS :=
   | none => none
   | some ins =>
     let newOuts := List.range' base nd.outputs.length
-    some { inputs := ins, outputs := newOuts,
-           dev := remapDevO (ioMapO nd.inputs ins nd.outputs newOuts) nd.dev, subgraphs := [] }
+    -- D340 / D341: a spec on a value that is not an input / output of the node follows the inliner's value
+    -- map; without an entry there it raises (the inliner's cloner does not allow outer-scope values)
+    let io := ioMapO nd.inputs ins nd.outputs newOuts ++ vm
+    if ∃ nc ∈ nd.dev, ∃ s ∈ nc.specs, olookup io s.value = none then none else
+    some { inputs := ins, outputs := newOuts, dev := remapDevO io nd.dev, subgraphs := [] }
 
 /-! ### serialization by name, deserialization by name -/
 
